@@ -35,7 +35,8 @@ def prepare_native_units(scr, units, repo, contracts):
         except (ScanError, OSError) as e:
             und.append(Obl('N/%s/inject' % name, 'native', name, 'undecided', 'lost anchor: %s' % e))
             continue
-        by_crate.setdefault(spec['crate'], []).append(name)
+        # a unit hosted in an integration-test target of its crate: run as `--test <target>`
+        by_crate.setdefault(spec['crate'] + ('::test=' + spec['test_target'] if spec.get('test_target') else ''), []).append(name)
     return by_crate, infos, und
 
 
@@ -64,7 +65,11 @@ def run_native_crate(scr, crate, unit_names, infos, tier, prop, logdir, seed, en
     env.pop('RUSTFLAGS', None)
     if env_extra:
         env.update(env_extra)
-    cmd = ['cargo', 'test', '-p', crate, '--lib', '--offline', '--', '__verif_n_', '--nocapture', '--test-threads', '8']
+    if '::test=' in crate:
+        pkg, target = crate.split('::test=')
+        cmd = ['cargo', 'test', '-p', pkg, '--test', target, '--offline', '--', '__verif_n_', '--nocapture', '--test-threads', '8']
+    else:
+        cmd = ['cargo', 'test', '-p', crate, '--lib', '--offline', '--', '__verif_n_', '--nocapture', '--test-threads', '8']
     t0 = time.time()
     # memory guard: a real-code path that allocates without bound must abort this test process, not
     # take the machine down (the unit is then reported UNDECIDED: no VERIF-N line)
@@ -84,7 +89,7 @@ def run_native_crate(scr, crate, unit_names, infos, tier, prop, logdir, seed, en
         out = e.stdout.decode() if isinstance(e.stdout, bytes) else (e.stdout or '')
         out += '\nTIMEOUT'
     wall = time.time() - t0
-    with open(os.path.join(logdir, 'native_%s_%s.log' % (prop, crate)), 'w') as f:
+    with open(os.path.join(logdir, 'native_%s_%s.log' % (prop, crate.replace('::test=', '-'))), 'w') as f:
         f.write('$ ' + ' '.join(cmd) + '\n' + out)
     lines = [parse_kv(m.group(1)) for m in LINE_RE.finditer(out)]
     if 'error: could not compile' in out or ('error[' in out and not lines):
